@@ -1,7 +1,7 @@
 (* EXTRACT-F: c11 frun_c11 *)
 (* Wire decoding + entry point of the C11 correspondence: the abstract description, the two geometric oracles
    and the conductivities come in; everything Geometry derives goes out. *)
-From OM Require Import Base.Lists Base.Ops Base.Wire Geom.GeomModel.
+From OM Require Import Base.Lists Base.Ops Base.Wire Geom.GeomModel Geom.CondFile.
 Local Open Scope Z_scope.
 
 Definition getTri : dec (nat * nat * nat) := do a <- getN; do b <- getN; do c <- getN; ret (a, b, c).
@@ -13,7 +13,9 @@ Definition getBound : dec (bool * nat) := do s <- getZ; do i <- getN; ret (negb 
 Definition getDomain : dec (list (bool * nat)) := do n <- getN; getMany n getBound.
 Definition getBools (n : nat) : dec (list bool) := do l <- getZs n; ret (map (fun z => negb (z =? 0)) l).
 
-Record c11case := mkCase { c_old : bool; c_desc : desc; c_isign : list Z; c_probes : list (list bool) }.
+(* conductivity file: has_cond, header ok, lines (kind 0 comment / 1 entry, name id), domain name ids *)
+Record c11cond := mkCC { cc_has : bool; cc_header : bool; cc_lines : list (Z * nat); cc_names : list nat }.
+Record c11case := mkCase { c_old : bool; c_desc : desc; c_isign : list Z; c_probes : list (list bool); c_cond : c11cond }.
 
 Definition getCase : dec c11case :=
   do old <- getZ;
@@ -22,7 +24,9 @@ Definition getCase : dec c11case :=
   do ss <- getZs ni;
   do nd <- getN; do ds <- getMany nd getDomain;
   do np <- getN; do ps <- getMany np (getBools ni);
-  ret (mkCase (negb (old =? 0)) (mkDesc ms ifs ds) ss ps).
+  do hc <- getZ; do hd <- getZ; do nl <- getN; do ls <- getMany nl (do k <- getZ; do n <- getN; ret (k, n));
+  do nms <- getNs nd;
+  ret (mkCase (negb (old =? 0)) (mkDesc ms ifs ds) ss ps (mkCC (negb (hc =? 0)) (negb (hd =? 0)) ls nms)).
 
 Definition zb (b : bool) : Z := if b then 1 else 0.
 Definition zopt (o : option nat) : Z := match o with Some k => zn k | None => -1 end.
@@ -49,10 +53,27 @@ Definition all_pairs (n : nat) : list (nat * nat) := flat_map (fun i => map (fun
 Section Run.
 Context {F : Type} (o : Ops F).
 
-Definition run_case (c : c11case) (conds : list F) : list Z * list F :=
-  match load_geom (c_desc c) (c_isign c) with
-  | None => ([ST_OTHER], [])
-  | Some g =>
+Fixpoint build_lines (ks : list (Z * nat)) (fs : list F) : list (cline F) :=
+  match ks with
+  | [] => []
+  | (k, n) :: r => if k =? 0 then CComment :: build_lines r fs
+                   else match fs with
+                        | v :: fr => CEntry n v :: build_lines r fr
+                        | [] => build_lines r []
+                        end
+  end.
+
+(* Geometry::load(geom) leaves every conductivity at -1; load(geom,cond) attaches them by name *)
+Definition conductivities (c : c11case) (fs : list F) : option (list F) :=
+  let cc := c_cond c in
+  if cc_has cc then load_cond (cc_header cc) (build_lines (cc_lines cc) fs) (cc_names cc)
+  else Some (map (fun _ => fofZ o (-1)) (cc_names cc)).
+
+Definition run_case (c : c11case) (fs : list F) : list Z * list F :=
+  match load_geom (c_desc c) (c_isign c), conductivities c fs with
+  | None, _ => ([ST_OTHER], [])
+  | _, None => ([ST_OTHER], [])
+  | Some g, Some conds =>
     match ffinalize o g conds (c_old c) with
     | (StOk, Some fi) =>
       let mk := fi_marks fi in
@@ -69,7 +90,7 @@ Definition run_case (c : c11case) (conds : list F) : list Z * list F :=
         ++ [zn (length (g_doms g))] ++ flat_map out_domain (g_doms g),
         flat_map (fun p => [sigma o g conds (fst p) (snd p); sigma_inv o g conds (fst p) (snd p);
                             indicator o g conds (fst p) (snd p)]) prs
-        ++ map (conductivity_jump o g conds) (seq 0 nm) )
+        ++ map (conductivity_jump o g conds) (seq 0 nm) ++ conds )
     | (st, _) => ([st_code st], [])
     end
   end.
